@@ -7,7 +7,12 @@ cd /repo || exit 2
 if [ -n "$(git status --porcelain)" ]; then echo "/repo not clean"; exit 2; fi
 git apply /verif/seeded/$ID/patch.diff || { echo "apply failed"; exit 2; }
 cd /verif
+touch /tmp/.try_mutant_stamp
 ./check $PROP "$@" > /verif/seeded/$ID/check_$PROP.log 2>&1
 RC=$?
 git -C /repo checkout -- .
+# replay files written while the mutant was applied belong to the mutant, not to the tree
+mkdir -p /verif/seeded/$ID/replays
+find /verif/replays -name '*.json' -newer /tmp/.try_mutant_stamp -exec mv {} /verif/seeded/$ID/replays/ \;
+sed -i "s#/verif/replays/#/verif/seeded/$ID/replays/#g" /verif/seeded/$ID/check_$PROP.log
 echo "rc=$RC"; grep -E "^(VIOLATION|OK|HARNESS|KNOWN)" /verif/seeded/$ID/check_$PROP.log | cut -c1-400
